@@ -1,5 +1,6 @@
 import Driver.Config
 import MockeryModel.Config.Select
+import MockeryModel.Run.Plan
 open Lean Mockery.Config Driver.Cfg
 
 namespace Driver.C07
@@ -41,6 +42,25 @@ def tagOf (c : Cfg) : String :=
 def strLt (a b : String × String × String) : Bool :=
   a.1 < b.1 || (a.1 == b.1 && (a.2.1 < b.2.1 || (a.2.1 == b.2.1 && a.2.2 < b.2.2)))
 
+/-- where an interface is declared: (package path, interface) ↦ file, package name, exportedness -/
+def srcInfoTable (srcs : Array Json) : List ((String × String) × Mockery.Run.SrcInfo) :=
+  srcs.toList.flatMap (fun sj =>
+    let path := (Driver.fldStr sj "path").toOption.getD ""
+    let dir := (Driver.fldStr sj "dir").toOption.getD ""
+    let pkgName := (dir.splitOn "/").getLast?.getD dir
+    let files := ((Driver.fldOpt sj "files").bind (fun a => a.getArr?.toOption)).getD #[]
+    files.toList.flatMap (fun fj =>
+      let fname := (Driver.fldStr fj "name").toOption.getD ""
+      let decls := ((Driver.fldOpt fj "decls").bind (fun a => a.getArr?.toOption)).getD #[]
+      decls.toList.filterMap (fun dj =>
+        match Driver.fldStr dj "name" with
+        | .ok n =>
+          let exported := match n.toList.head? with | some c => c.isUpper | none => false
+          some ((path, n), (⟨"/MOD/" ++ dir ++ "/" ++ fname, pkgName, exported⟩ : Mockery.Run.SrcInfo))
+        | .error _ => none)))
+
+def relPath (p : String) : String := if p.startsWith "/MOD/" then (p.drop 5).toString else p
+
 def handle (input : Json) : Except String Json := do
   let tree ← Driver.fld input "tree"
   let fail := Json.mkObj [("exit", (1 : Nat)), ("mocks", Json.arr #[])]
@@ -63,8 +83,23 @@ def handle (input : Json) : Except String Json := do
       | .ok mocks =>
         let rows := (mocks.map (fun mk => (mk.pkg, mk.iface, tagOf mk.cfg))).toArray.qsort strLt
         let miss := missing out srcs
-        pure (Json.mkObj [
+        let base : List (String × Json) := [
           ("exit", if miss.isEmpty then (0 : Nat) else (1 : Nat)),
-          ("mocks", Json.arr (rows.map (fun (a, b, c) => Json.arr #[Json.str a, Json.str b, Json.str c])))])
+          ("mocks", Json.arr (rows.map (fun (a, b, c) => Json.arr #[Json.str a, Json.str b, Json.str c])))]
+        if !miss.isEmpty then return Json.mkObj base
+        -- from the selected mocks to output files
+        let table := srcInfoTable (← Driver.fldArr input "srcs")
+        let srcOf : String → String → Mockery.Run.SrcInfo := fun p i =>
+          ((table.find? (fun e => e.1 == (p, i))).map (·.2)).getD ⟨"/MOD/unknown.go", "unknown", true⟩
+        match Mockery.Run.planAll "/MOD/.mockery.yml" "/MOD" srcOf mocks with
+        | .error (.resolve .unmodelled) => pure (Json.mkObj [("unmodelled", Json.bool true)])
+        | .error _ => pure fail
+        | .ok planned =>
+          match Mockery.Run.group planned with
+          | .error _ => pure fail
+          | .ok cs =>
+            let files := (cs.map (fun c => (relPath c.path, c.pkgName, c.mocks.map (fun pm => (pm.iface, pm.structName))))).toArray.qsort (fun a b => a.1 < b.1)
+            pure (Json.mkObj (base ++ [("files", Json.arr (files.map (fun (p, pn, ms) =>
+              Json.arr #[Json.str p, Json.str pn, Json.arr (ms.map (fun (i, sn) => Json.arr #[Json.str i, Json.str sn])).toArray])))]))
 
 end Driver.C07
